@@ -20,7 +20,7 @@ func BenchmarkJudge(b *testing.B) {
 	getRef()
 	b.ResetTimer()
 	for i := 0; i < b.N; i++ {
-		w.judgeCall(Call{Entry: "run", Shape: "tryfinally", Faults: []Fault{{"throw", 2}}})
+		w.judgeCall(Call{Entry: "run", Shape: "tryfinally", Faults: []Fault{{"throw", 2}}}, true)
 	}
 }
 func BenchmarkExec(b *testing.B) {
